@@ -307,13 +307,7 @@ Theorem c07_timeout_value :
   /\ vo_saved (visit value eval_tpl to_xtext registered test lc max_result_chars site flow_nodes nd true d
                      (scan_timeouts times) prev)
      = Some (result_for lc max_result_chars (router_base r) c (hd zero_time_text times) [] None).
-Proof.
-  exact (fun value eval_tpl to_xtext registered test lc max_result_chars site flow_nodes nd r d times prev u c
-             Hr Ht Hcat Hex Hn =>
-           conj (scan_timeouts_first times)
-                (timeout_value_spec value eval_tpl to_xtext registered test lc max_result_chars site flow_nodes nd r d
-                                    times prev u c Hr Ht Hcat Hex Hn)).
-Qed.
+Proof. exact timeout_value_statement. Qed.
 Print Assumptions c07_timeout_value.
 
 (* "leaves by": the exit a router answers is the exit of the step — also when no result is saved — with the segment
